@@ -215,7 +215,7 @@ theorem routes_balance (c : ℕ) (s : ℚ) (hc : c ≠ 0) (routes : List (List A
       ih (fun r' hr' => hr r' (List.mem_cons_of_mem _ hr')),
       route_balance c s hc r (hr r List.mem_cons_self)]
 
-/-! ## statements to prove (replace every `sorry`) -/
+/-! ## property theorems -/
 
 /-- the successor of a selected move that arrives at a customer is unique, and exists -/
 theorem arc_succ_exists_unique (I : ArcInst) (hw : WF I) (x : Vec) (hl : Local I x) (m : ATup)
